@@ -224,9 +224,11 @@ func newOpsWorld(c *Case) (world, error) {
 		w.inst = p
 		w.add = func(a *Op) error { return p.AddVoluntaryExit(ctx, buildExit(a)) }
 		w.all = func() (out []string) {
-			for _, x := range p.All() {
+			raw := p.All()
+			for _, x := range raw {
 				out = append(out, sigID(&x.Signature))
 			}
+			ownSlice(raw)
 			return
 		}
 	case "propslash":
@@ -234,9 +236,11 @@ func newOpsWorld(c *Case) (world, error) {
 		w.inst = p
 		w.add = func(a *Op) error { return p.AddProposerSlashing(ctx, buildPropSlashing(a)) }
 		w.all = func() (out []string) {
-			for _, x := range p.All() {
+			raw := p.All()
+			for _, x := range raw {
 				out = append(out, sigID(&x.SignedHeader1.Signature)+sigID(&x.SignedHeader2.Signature))
 			}
+			ownSlice(raw)
 			return
 		}
 	case "attslash":
@@ -244,9 +248,11 @@ func newOpsWorld(c *Case) (world, error) {
 		w.inst = p
 		w.add = func(a *Op) error { return p.AddAttesterSlashing(ctx, buildAttSlashing(a)) }
 		w.all = func() (out []string) {
-			for _, x := range p.All() {
+			raw := p.All()
+			for _, x := range raw {
 				out = append(out, sigID(&x.Attestation1.Signature)+sigID(&x.Attestation2.Signature))
 			}
+			ownSlice(raw)
 			return
 		}
 	}
@@ -377,4 +383,14 @@ func syncMeta(op *Op) meta {
 		return meta{M: "PackAggregate", Keys: []string{"*"}}
 	}
 	return meta{M: op.K, Write: true, Keys: []string{"*"}}
+}
+
+// ownSlice treats a slice a query handed out as the caller's own: every element of its backing array, up to
+// capacity, is overwritten (what appending to or sorting the result does). A pool that hands out its own
+// storage then races with concurrent adds (race detector) or returns the junk later (linearizability).
+func ownSlice[T any](s []*T) {
+	full := s[:cap(s)]
+	for i := range full {
+		full[i] = nil
+	}
 }
